@@ -1,7 +1,7 @@
 CONSTANTS
   Dev = {"HexLowerOnly"}
   CatN = 1
-  RouteN = 3
+  RouteN = 4
   MaxDepth = 0
 INIT SweepInit
 NEXT SweepNext
